@@ -125,8 +125,10 @@ class Folder:
         auto_n = 0
         for st in c.body:
             tgt = None
-            if isinstance(st, ast.Assign) and len(st.targets) == 1 and isinstance(st.targets[0], ast.Name):
-                tgt, val = st.targets[0].id, st.value
+            extra: List[str] = []
+            if isinstance(st, ast.Assign) and all(isinstance(t, ast.Name) for t in st.targets):
+                tgt, val = st.targets[0].id, st.value        # `A = B = v`: the first name is canonical, the others aliases
+                extra = [t.id for t in st.targets[1:]]
             elif isinstance(st, ast.AnnAssign) and isinstance(st.target, ast.Name) and st.value is not None:
                 if 'ClassVar' in ast.unparse(st.annotation):
                     continue
@@ -152,6 +154,9 @@ class Folder:
             m = first if first is not None else EnumMember(clsname, tgt, v)
             members[tgt] = m
             env[tgt] = m
+            for al in extra:
+                members[al] = m
+                env[al] = m
         return EnumTable(clsname, members)
 
     # -- expressions -------------------------------------------------------------------------
